@@ -280,7 +280,7 @@ def main(tier, seed, replay=None):
     exe = setup()
     rng = random.Random(seed)
     ncase = 5000 if tier == "quick" else 40000
-    la, lf = (6, 6) if tier == "quick" else (6, 7)
+    la, lf = (5, 6) if tier == "quick" else (6, 7)
     cases = []
     cdir = os.path.join(ROOT, "corpus", PROP)
     if replay:
